@@ -12,6 +12,18 @@ thread_local! {
     static ARMED_AT: Cell<u64> = const { Cell::new(u64::MAX) };
     static FIRED: Cell<u64> = const { Cell::new(0) };
     static STICKY: Cell<bool> = const { Cell::new(false) };
+    static STATEMENTS: Cell<u64> = const { Cell::new(0) };
+}
+
+/// Called by the product at the start of every statement it executes (not at loop heads).
+#[inline]
+pub fn stmt() {
+    STATEMENTS.with(|c| c.set(c.get() + 1));
+}
+
+/// Number of statements executed on this thread.
+pub fn statements() -> u64 {
+    STATEMENTS.with(Cell::get)
 }
 
 /// Called by the product. Returns true when the budget is exhausted.
